@@ -1009,3 +1009,278 @@ package sdf
 //@   ensures [axes-orthogonal] r.u.Dot(r.v) == 0
 //@   ensures [axes-in-plane] r.u.Dot(n) == 0 && r.v.Dot(n) == 0
 //@ end
+
+//-----------------------------------------------------------------------------
+// C03: exact primitives equal the independent closed-form Euclidean signed
+// distance; distance-preserving operators keep the 1-Lipschitz property.
+
+//@ spec boxsd2(dx real, dy real) = sqrt(sq(max(dx, 0)) + sq(max(dy, 0))) + min(max(dx, dy), 0)
+//@ spec boxsd3(dx real, dy real, dz real) = sqrt(sq(max(dx, 0)) + sq(max(dy, 0)) + sq(max(dz, 0))) + min(max(dx, dy, dz), 0)
+//@ spec lip2(s SDF2, a v2.Vec, b v2.Vec) = sq(s.Evaluate(a) - s.Evaluate(b)) <= a.Sub(b).Length2()
+//@ spec lip3(s SDF3, a v3.Vec, b v3.Vec) = sq(s.Evaluate(a) - s.Evaluate(b)) <= a.Sub(b).Length2()
+
+//@ func Sphere3D
+//@   property C03
+//@   id EXACT
+//@   forall p v3.Vec
+//@   let d = r.Evaluate(p)
+//@   ensures [euclidean] isnil(err) ==> d == sqrt(p.X*p.X + p.Y*p.Y + p.Z*p.Z) - radius
+//@ end
+
+//@ func Circle2D
+//@   property C03
+//@   id EXACT
+//@   forall p v2.Vec
+//@   let d = r.Evaluate(p)
+//@   ensures [euclidean] isnil(err) ==> d == sqrt(p.X*p.X + p.Y*p.Y) - radius
+//@ end
+
+//@ func Box3D
+//@   property C03
+//@   id EXACT
+//@   forall p v3.Vec
+//@   requires 2*round <= size.X && 2*round <= size.Y && 2*round <= size.Z
+//@   let d = r.Evaluate(p)
+//@   ensures [euclidean-to-inset-box-minus-round] isnil(err) ==> d == boxsd3(abs(p.X) - (size.X/2 - round), abs(p.Y) - (size.Y/2 - round), abs(p.Z) - (size.Z/2 - round)) - round
+//@ end
+
+//@ func Box2D
+//@   property C03
+//@   id EXACT
+//@   forall p v2.Vec
+//@   requires size.X > 0 && size.Y > 0 && round >= 0 && 2*round <= size.X && 2*round <= size.Y
+//@   let d = r.Evaluate(p)
+//@   ensures [euclidean-to-inset-box-minus-round] d == boxsd2(abs(p.X) - (size.X/2 - round), abs(p.Y) - (size.Y/2 - round)) - round
+//@ end
+
+//@ func Line2D
+//@   property C03
+//@   id EXACT
+//@   forall p v2.Vec
+//@   requires l >= 0 && round >= 0
+//@   let d = r.Evaluate(p)
+//@   ensures [distance-to-segment-minus-round] d == sqrt(sq(max(abs(p.X) - l/2, 0)) + sq(p.Y)) - round
+//@ end
+
+//@ func Cylinder3D
+//@   property C03
+//@   id EXACT
+//@   forall p v3.Vec
+//@   let d = r.Evaluate(p)
+//@   ensures [euclidean-in-meridian-plane] isnil(err) ==> d == boxsd2(sqrt(p.X*p.X + p.Y*p.Y) - (radius - round), abs(p.Z) - (height/2 - round)) - round
+//@ end
+
+//@ func Capsule3D
+//@   property C03
+//@   id EXACT
+//@   forall p v3.Vec
+//@   let d = r.Evaluate(p)
+//@   ensures [euclidean-in-meridian-plane] isnil(err) ==> d == boxsd2(sqrt(p.X*p.X + p.Y*p.Y), abs(p.Z) - (height/2 - radius)) - radius
+//@ end
+
+// --- Lipschitz preservation (two-point form)
+
+//@ func Difference3D
+//@   property C03
+//@   id LIP
+//@   forall p v3.Vec, q v3.Vec
+//@   requires forall a v3.Vec, b v3.Vec :: lip3(s0, a, b)
+//@   requires forall a v3.Vec, b v3.Vec :: lip3(s1, a, b)
+//@   let dp = r.Evaluate(p)
+//@   let dq = r.Evaluate(q)
+//@   ensures [one-lipschitz] sq(dp - dq) <= p.Sub(q).Length2()
+//@ end
+
+//@ func Intersect3D
+//@   property C03
+//@   id LIP
+//@   forall p v3.Vec, q v3.Vec
+//@   requires forall a v3.Vec, b v3.Vec :: lip3(s0, a, b)
+//@   requires forall a v3.Vec, b v3.Vec :: lip3(s1, a, b)
+//@   let dp = r.Evaluate(p)
+//@   let dq = r.Evaluate(q)
+//@   ensures [one-lipschitz] sq(dp - dq) <= p.Sub(q).Length2()
+//@ end
+
+//@ func Difference2D
+//@   property C03
+//@   id LIP
+//@   forall p v2.Vec, q v2.Vec
+//@   requires forall a v2.Vec, b v2.Vec :: lip2(s0, a, b)
+//@   requires forall a v2.Vec, b v2.Vec :: lip2(s1, a, b)
+//@   let dp = r.Evaluate(p)
+//@   let dq = r.Evaluate(q)
+//@   ensures [one-lipschitz] sq(dp - dq) <= p.Sub(q).Length2()
+//@ end
+
+//@ func Intersect2D
+//@   property C03
+//@   id LIP
+//@   forall p v2.Vec, q v2.Vec
+//@   requires forall a v2.Vec, b v2.Vec :: lip2(s0, a, b)
+//@   requires forall a v2.Vec, b v2.Vec :: lip2(s1, a, b)
+//@   let dp = r.Evaluate(p)
+//@   let dq = r.Evaluate(q)
+//@   ensures [one-lipschitz] sq(dp - dq) <= p.Sub(q).Length2()
+//@ end
+
+//@ lemma union3d_lip(s0 SDF3, s1 SDF3, p v3.Vec, q v3.Vec)
+//@   property C03
+//@   requires forall a v3.Vec, b v3.Vec :: lip3(s0, a, b)
+//@   requires forall a v3.Vec, b v3.Vec :: lip3(s1, a, b)
+//@   let u = Union3D(s0, s1)
+//@   let dp = u.Evaluate(p)
+//@   let dq = u.Evaluate(q)
+//@   ensures [one-lipschitz] sq(dp - dq) <= p.Sub(q).Length2()
+//@ end
+
+//@ lemma polymin_lip(a1 real, b1 real, a2 real, b2 real, k real)
+//@   property C03
+//@   requires k > 0
+//@   cases b1 - a1 >= k
+//@   cases b1 - a1 <= -k
+//@   cases b2 - a2 >= k
+//@   cases b2 - a2 <= -k
+//@   ensures [sup-norm-lipschitz] abs(PolyMin(k)(a1, b1) - PolyMin(k)(a2, b2)) <= max(abs(a1 - a2), abs(b1 - b2))
+//@ end
+
+//@ lemma polymax_lip(a1 real, b1 real, a2 real, b2 real, k real)
+//@   property C03
+//@   requires k > 0
+//@   cases b1 - a1 >= k
+//@   cases b1 - a1 <= -k
+//@   cases b2 - a2 >= k
+//@   cases b2 - a2 <= -k
+//@   ensures [sup-norm-lipschitz] abs(PolyMax(k)(a1, b1) - PolyMax(k)(a2, b2)) <= max(abs(a1 - a2), abs(b1 - b2))
+//@ end
+
+//@ lemma lagrange3(u v3.Vec, v v3.Vec)
+//@   property C03
+//@   ensures [lagrange-identity] u.Length2()*v.Length2() - sq(u.Dot(v)) == u.Cross(v).Length2()
+//@ end
+
+//@ lemma union3d_polymin_lip(s0 SDF3, s1 SDF3, k real, p v3.Vec, q v3.Vec)
+//@   property C03
+//@   requires k > 0
+//@   requires forall a v3.Vec, b v3.Vec :: lip3(s0, a, b)
+//@   requires forall a v3.Vec, b v3.Vec :: lip3(s1, a, b)
+//@   let u = Union3D(s0, s1)
+//@   do u.SetMin(PolyMin(k))
+//@   let dp = u.Evaluate(p)
+//@   let dq = u.Evaluate(q)
+//@   assert [is-polymin-of-operands] dp == PolyMin(k)(s0.Evaluate(p), s1.Evaluate(p)) && dq == PolyMin(k)(s0.Evaluate(q), s1.Evaluate(q))
+//@   use polymin_lip(s0.Evaluate(p), s1.Evaluate(p), s0.Evaluate(q), s1.Evaluate(q), k)
+//@   generalize dp
+//@   generalize dq
+//@   ensures [one-lipschitz] sq(dp - dq) <= p.Sub(q).Length2()
+//@ end
+
+//@ lemma difference3d_polymax_lip(s0 SDF3, s1 SDF3, k real, p v3.Vec, q v3.Vec)
+//@   property C03
+//@   requires k > 0
+//@   requires forall a v3.Vec, b v3.Vec :: lip3(s0, a, b)
+//@   requires forall a v3.Vec, b v3.Vec :: lip3(s1, a, b)
+//@   let u = Difference3D(s0, s1)
+//@   do u.SetMax(PolyMax(k))
+//@   let dp = u.Evaluate(p)
+//@   let dq = u.Evaluate(q)
+//@   assert [is-polymax-of-operands] dp == PolyMax(k)(s0.Evaluate(p), -s1.Evaluate(p)) && dq == PolyMax(k)(s0.Evaluate(q), -s1.Evaluate(q))
+//@   use polymax_lip(s0.Evaluate(p), -s1.Evaluate(p), s0.Evaluate(q), -s1.Evaluate(q), k)
+//@   generalize dp
+//@   generalize dq
+//@   ensures [one-lipschitz] sq(dp - dq) <= p.Sub(q).Length2()
+//@ end
+
+//@ func Cut3D
+//@   property C03
+//@   id LIP
+//@   forall p v3.Vec, q v3.Vec
+//@   requires n.X*n.X + n.Y*n.Y + n.Z*n.Z > 0
+//@   requires forall a v3.Vec, b v3.Vec :: lip3(sdf, a, b)
+//@   let dp = r.Evaluate(p)
+//@   let dq = r.Evaluate(q)
+//@   let nn = r.n
+//@   assert [unit-normal] nn.Length2() == 1
+//@   generalize nn
+//@   let v = p.Sub(q)
+//@   let dt = nn.Dot(v)
+//@   let cr = nn.Cross(v)
+//@   let pp = p.Sub(a).Dot(nn)
+//@   let pq = q.Sub(a).Dot(nn)
+//@   assert [plane-difference-is-dot] pp - pq == dt
+//@   use lagrange3(nn, v)
+//@   generalize dt
+//@   generalize cr
+//@   generalize pp
+//@   generalize pq
+//@   assert [cauchy-schwarz] sq(dt) <= v.Length2()
+//@   ensures [one-lipschitz] sq(dp - dq) <= p.Sub(q).Length2()
+//@ end
+
+//@ func Offset3D
+//@   property C03
+//@   id LIP
+//@   forall p v3.Vec, q v3.Vec
+//@   requires forall a v3.Vec, b v3.Vec :: lip3(sdf, a, b)
+//@   let dp = r.Evaluate(p)
+//@   let dq = r.Evaluate(q)
+//@   ensures [one-lipschitz] sq(dp - dq) <= p.Sub(q).Length2()
+//@ end
+
+//@ func Shell3D
+//@   property C03
+//@   id LIP
+//@   forall p v3.Vec, q v3.Vec
+//@   requires forall a v3.Vec, b v3.Vec :: lip3(sdf, a, b)
+//@   let dp = r.Evaluate(p)
+//@   let dq = r.Evaluate(q)
+//@   ensures [one-lipschitz] isnil(err) ==> sq(dp - dq) <= p.Sub(q).Length2()
+//@ end
+
+//@ func Elongate3D
+//@   property C03
+//@   id LIP
+//@   forall p v3.Vec, q v3.Vec
+//@   requires forall a v3.Vec, b v3.Vec :: lip3(sdf, a, b)
+//@   let dp = r.Evaluate(p)
+//@   let dq = r.Evaluate(q)
+//@   let ep = p.Sub(p.Clamp(r.hn, r.hp))
+//@   let eq = q.Sub(q.Clamp(r.hn, r.hp))
+//@   assert [x-nonexpansive] sq(ep.X - eq.X) <= sq(p.X - q.X)
+//@   assert [y-nonexpansive] sq(ep.Y - eq.Y) <= sq(p.Y - q.Y)
+//@   assert [z-nonexpansive] sq(ep.Z - eq.Z) <= sq(p.Z - q.Z)
+//@   generalize ep
+//@   generalize eq
+//@   ensures [one-lipschitz] sq(dp - dq) <= p.Sub(q).Length2()
+//@ end
+
+//@ func Extrude3D
+//@   property C03
+//@   id LIP
+//@   forall p v3.Vec, q v3.Vec
+//@   requires forall a v2.Vec, b v2.Vec :: lip2(sdf, a, b)
+//@   let dp = r.Evaluate(p)
+//@   let dq = r.Evaluate(q)
+//@   ensures [one-lipschitz] sq(dp - dq) <= p.Sub(q).Length2()
+//@ end
+
+//@ func ScaleUniform3D
+//@   property C03
+//@   id LIP
+//@   forall p v3.Vec, q v3.Vec
+//@   requires k > 0
+//@   requires forall a v3.Vec, b v3.Vec :: lip3(sdf, a, b)
+//@   let dp = r.Evaluate(p)
+//@   let dq = r.Evaluate(q)
+//@   ensures [one-lipschitz] sq(dp - dq) <= p.Sub(q).Length2()
+//@ end
+
+//@ func Revolve3D
+//@   property C03
+//@   id LIP
+//@   forall p v3.Vec, q v3.Vec
+//@   requires forall a v2.Vec, b v2.Vec :: lip2(sdf, a, b)
+//@   let dp = r.Evaluate(p)
+//@   let dq = r.Evaluate(q)
+//@   ensures [one-lipschitz] isnil(err) ==> sq(dp - dq) <= p.Sub(q).Length2()
+//@ end
